@@ -10,6 +10,7 @@ from jinja2 import nodes as N
 from ..core import AnalysisError, RuleSpec
 from ..jmodel import sym
 from ..pymodel import call_name
+from .. import astq
 
 EXPLANATION = (
     "Unordered-source -> order-sensitive-sink analysis. Sources: expressions of set type (set(), set "
@@ -86,6 +87,10 @@ def is_set_expr(e: ast.AST, local_sets: Set[str], attrs: Set[str], funcs: Set[st
             return True
         if cn == "sorted" and e.args:
             keyed = [k for k in e.keywords if k.arg == "key"]
+            if keyed and isinstance(keyed[0].value, ast.Constant) and keyed[0].value.value is None:
+                return False
+            if keyed and isinstance(keyed[0].value, ast.Name) and f"<none:{keyed[0].value.id}>" in attrs:
+                return False     # key=<parameter that is None on every call path>: the natural total order
             if keyed and not TOTAL_KEY.search(ast.unparse(keyed[0].value)):
                 # a stable sort with a non-injective key keeps the set's order among equal keys
                 return is_set_expr(e.args[0], local_sets, attrs, funcs)
@@ -198,6 +203,43 @@ EXEMPT = {
 }
 
 
+def none_params(py, fn) -> Set[str]:
+    """'<none:p>' for every parameter p whose default is None and to which no call site passes anything but the
+    same-named parameter of the caller (forwarding) or None"""
+    out: Set[str] = set()
+    a = fn.args
+    pos = a.posonlyargs + a.args
+    defaults = dict(zip([x.arg for x in pos][len(pos) - len(a.defaults):], a.defaults))
+    defaults.update({x.arg: d for x, d in zip(a.kwonlyargs, a.kw_defaults) if d is not None})
+    cands = [p for p, d in defaults.items() if isinstance(d, ast.Constant) and d.value is None]
+    if not cands:
+        return out
+    names = [x.arg for x in pos]
+    idx = py.__dict__.get("_calls_by_last")
+    if idx is None:
+        idx = py.__dict__["_calls_by_last"] = {}
+        for t in py.modules.values():
+            for c in ast.walk(t):
+                if isinstance(c, ast.Call):
+                    idx.setdefault(call_name(c).split(".")[-1], []).append(c)
+    sites = idx.get(fn.name, [])
+    for p in cands:
+        ok = True
+        for c in sites:
+            vals = [k.value for k in c.keywords if k.arg == p]
+            i = names.index(p) if p in names else None
+            if i is not None:
+                off = 1 if names and names[0] in ("self", "cls") and isinstance(c.func, ast.Attribute) else 0
+                if 0 <= i - off < len(c.args):
+                    vals.append(c.args[i - off])
+            for v in vals:
+                if not ((isinstance(v, ast.Constant) and v.value is None) or (isinstance(v, ast.Name) and v.id == p)):
+                    ok = False
+        if ok:
+            out.add(f"<none:{p}>")
+    return out
+
+
 def r1_unordered_iteration(ctx, rep):
     py = ctx.py
     funcs = set_funcs(py)
@@ -210,7 +252,7 @@ def r1_unordered_iteration(ctx, rep):
         n_sets += len(mattrs)
         for _, fn in [(m, f) for m, f in allf if m == mod]:
             cls = py.enclosing_class(fn)
-            attrs = set(mattrs)
+            attrs = set(mattrs) | none_params(py, fn)
             if cls:
                 # self.X is judged by what this class (and its bases) assign to X
                 attrs |= {"<self>"} | {"self." + a for a in class_set_attrs(py, cls)}
@@ -301,39 +343,50 @@ def r1_unordered_iteration(ctx, rep):
 
 
 def r2_stale_output(ctx, rep):
+    """Decided on the event trace of Documentation.writeout with its own helpers (methods and module functions)
+    inlined: the removal of the output directory precedes every write."""
     py = ctx.py
     fn = py.func("Documentation.writeout")
-    # first statement(s): out_dir assignment, then removal
-    removal = None
-    first_write = None
-    for st in fn.body:
-        txt = ast.unparse(st)
-        if removal is None and ("shutil.rmtree(out_dir" in txt or "out_dir.unlink()" in txt):
-            removal = st
-            continue
-        if any(isinstance(c, ast.Call) and call_name(c).split(".")[-1] in
-               ("mkdir", "copytree", "copy", "write_bytes", "write_text", "writeout", "output_graphs", "print_output")
-               for c in ast.walk(st)):
-            if first_write is None:
-                first_write = st
-    ok = removal is not None and first_write is not None and removal.lineno < first_write.lineno
+    ev = astq.trace(fn, astq.class_method_resolver(py, "Documentation", "output"), max_depth=2)
+    outv = {e.target for e in ev if e.kind == "assign" and e.value is not None and "output_dir" in e.text(e.value)} | {"out_dir"}
+
+    def is_out(txt: str) -> bool:
+        return txt in outv or "output_dir" in txt
+
+    WRITES = ("mkdir", "copytree", "copy", "copyfile", "write_bytes", "write_text", "writeout", "output_graphs", "print_output", "makedirs")
+    rm = [e for e in ev if e.kind == "call" and call_name(e.node).split(".")[-1] == "rmtree" and e.node.args and is_out(e.text(e.node.args[0]))]
+    ul = [e for e in ev if e.kind == "call" and isinstance(e.node.func, ast.Attribute) and e.node.func.attr == "unlink"
+          and is_out(e.text(e.node.func.value))]
+    ul += [e for e in ev if e.kind == "call" and call_name(e.node) in ("os.remove", "os.unlink") and e.node.args and is_out(e.text(e.node.args[0]))]
+    writes = [e for e in ev if e.kind in ("call", "inline") and call_name(e.node).split(".")[-1] in WRITES
+              and not (e.kind == "inline")]
+    removal = (rm + ul)
+    first_rm = min((ev.index(e) for e in removal), default=None)
+    last_rm = max((ev.index(e) for e in removal), default=None)
+    first_write = min((ev.index(e) for e in writes), default=None)
+    ok = first_rm is not None and first_write is not None and last_rm < first_write
     rep.ob("writeout: removal of out_dir dominates every write", ok,
            "the output directory is removed (file -> unlink, else rmtree) before anything is created" if ok else
            "writeout no longer removes an existing output directory before writing: files of an earlier "
-           "run survive", py.nloc(removal or fn))
-    if removal is not None:
-        t = ast.unparse(removal)
-        ok = "rmtree(out_dir" in t and ("unlink" in t)
+           "run survive", py.nloc(removal[0].node if removal else fn))
+    if removal:
+        ok = bool(rm) and bool(ul)
         rep.ob("writeout: both file and directory cases removed", ok,
-               "is_file -> unlink, otherwise rmtree" if ok else f"removal statement is `{t[:80]}`", py.nloc(removal))
+               "is_file -> unlink, otherwise rmtree" if ok else
+               f"only {'rmtree' if rm else 'unlink'} is applied to the output path: an existing {'file' if rm else 'directory'} "
+               f"at that path is not removed", py.nloc(removal[0].node))
     # directory creation must fail on leftovers (no exist_ok) so that a failed removal is not masked
-    for c in py.walk_calls(fn):
-        if call_name(c).endswith(".mkdir") and ast.unparse(c.func.value) in ("out_dir", "(out_dir / directory)"):
-            eo = [k for k in c.keywords if k.arg == "exist_ok"]
+    for e in ev:
+        if e.kind == "call" and isinstance(e.node.func, ast.Attribute) and e.node.func.attr == "mkdir":
+            recv = e.text(e.node.func.value)
+            base = re.split(r"\s*/\s*|\.joinpath\(", recv.strip("()"))[0]
+            if not is_out(base):
+                continue
+            eo = [k for k in e.node.keywords if k.arg == "exist_ok"]
             ok = not eo or (isinstance(eo[0].value, ast.Constant) and not eo[0].value.value)
-            rep.ob(f"writeout mkdir {ast.unparse(c.func.value)}", ok,
+            rep.ob(f"writeout mkdir {'out_dir' if is_out(recv) else 'out_dir/<sub-directory>'}", ok,
                    "created without exist_ok: nothing can be left over at that path" if ok else
-                   "mkdir(exist_ok=True) silently accepts a directory left by an earlier run", py.nloc(c))
+                   "mkdir(exist_ok=True) silently accepts a directory left by an earlier run", py.nloc(e.node))
     ct = py.func("output.copytree")
     for c in py.walk_calls(ct):
         if call_name(c) == "shutil.copytree":
